@@ -360,7 +360,7 @@ class tN2kDeviceList : public tNMEA2000::tMsgHandler {
          * \return true 
          * \return false 
          */
-        bool ReadyForRequestProductInformation() { return ( ShouldRequestProductInformation() && N2kHasElapsed(ProdIRequested,N2kDL_TimeBetweenPIRequest) && N2kHasElapsed(GetCreateTime(),N2kDL_TimeForFirstRequest) ); }
+        bool ReadyForRequestProductInformation() { return ( ShouldRequestProductInformation() && (nProdIRequested==0 || N2kHasElapsed(ProdIRequested,N2kDL_TimeBetweenPIRequest)) && N2kHasElapsed(GetCreateTime(),N2kDL_TimeForFirstRequest) ); }
         /****************************************************************//**
          * \brief Increments the Number of how often the Product Information
          *         has already been requested and stores the timestamp*/
@@ -401,7 +401,7 @@ class tN2kDeviceList : public tNMEA2000::tMsgHandler {
          * \return true 
          * \return false 
          */
-        bool ReadyForRequestConfigurationInformation() { return ( ShouldRequestConfigurationInformation() && N2kMillis()-ConfIRequested>N2kDL_TimeBetweenCIRequest && N2kMillis()-GetCreateTime()>N2kDL_TimeForFirstRequest ); }
+        bool ReadyForRequestConfigurationInformation() { return ( ShouldRequestConfigurationInformation() && (nConfIRequested==0 || N2kHasElapsed(ConfIRequested,N2kDL_TimeBetweenCIRequest)) && N2kHasElapsed(GetCreateTime(),N2kDL_TimeForFirstRequest) ); }
         /****************************************************************//**
          * \brief Increments the Number of how often the Configuration 
          *        Information has already been requested and stores the 
@@ -435,7 +435,7 @@ class tN2kDeviceList : public tNMEA2000::tMsgHandler {
          * \return true 
          * \return false 
          */
-        bool ReadyForRequestPGNList() { return ( ShouldRequestPGNList() && N2kHasElapsed(PGNsRequested,1000) && N2kHasElapsed(GetCreateTime(),N2kDL_TimeForFirstRequest) ); }
+        bool ReadyForRequestPGNList() { return ( ShouldRequestPGNList() && (nPGNsRequested==0 || N2kHasElapsed(PGNsRequested,1000)) && N2kHasElapsed(GetCreateTime(),N2kDL_TimeForFirstRequest) ); }
     }; // tInternalDevice
 
   protected:
